@@ -1271,6 +1271,212 @@ fn history(cfg: &Cfg, rep: &mut Report, rng: &mut Rng, kind: Kind, from_default:
 }
 
 // ---------------------------------------------------------------------------------------------
+// non-finite candidates: NaN (several signs / payloads), +inf, -inf offered to every parameter of every
+// distribution through the constructor, the setter and every position of the bulk-update vector
+//
+// "invalid values are rejected by a panic in constructors, setters and bulk updates alike, so that no
+// object ever holds an out-of-domain parameter". Whether +inf is a valid scale (or NaN a parameter at
+// all) the statement does not say, so ACCEPTANCE of a non-finite value is recorded, not judged — except
+// that the three routes must agree: a value the constructor rejects must be rejected by the setter and
+// by the bulk update too. What IS judged is the object after a call that panicked: the caller catches
+// the panic and still holds the object, which must be observationally (every method, seeded streams
+// included) the twin of the last accepted parameters — or, after a bulk update, of those parameters
+// with a prefix of the offered vector applied, if the constructor accepts that vector.
+// Hazards of the unchanged library that the family stays clear of: an object that ACCEPTED a
+// non-finite value is never observed (a NaN shape makes Gamma's sampler spin, erf(NaN) recurses without
+// end); twins of constructor-accepted prefixes are observed under the iteration budget of `draws`, and
+// `Normal::cdf` only where `cdf_evaluable`.
+
+fn value_kind(v: f64) -> &'static str {
+    if v.is_nan() {
+        "NaN"
+    } else if v > 0.0 {
+        "+inf"
+    } else {
+        "-inf"
+    }
+}
+
+fn show(v: f64) -> String {
+    if v.is_nan() {
+        format!("NaN[{:#018x}]", v.to_bits())
+    } else {
+        format!("{:?}", v)
+    }
+}
+
+fn nonfinite_values(cfg: &Cfg, rng: &mut Rng) -> Vec<f64> {
+    let payload = (rng.u64() % ((1u64 << 52) - 1)) + 1;
+    let sign = rng.u64() & (1u64 << 63);
+    let random_nan = f64::from_bits(sign | 0x7ff0_0000_0000_0000 | payload);
+    if cfg.miri() {
+        return vec![random_nan, f64::INFINITY]; // a panic costs 0.1 s there
+    }
+    // negative quiet NaN, signalling patterns of both signs, all-ones payload
+    let patterned = f64::from_bits(*rng.choose(&[0xfff8_0000_0000_0000u64, 0x7ff0_0000_0000_0001, 0xfff0_0000_0000_0001, 0x7fff_ffff_ffff_ffff]));
+    vec![f64::NAN, patterned, random_nan, f64::INFINITY, f64::NEG_INFINITY]
+}
+
+/// The object `o2` after a call that panicked.
+fn after_rejection(rep: &mut Report, kind: Kind, regime: &str, hist: &[String], model: &[f64], offered: Option<&[f64]>, o2: &Obj, n_draws: usize, seed: u64) {
+    let after = observe(kind, model, o2);
+    let same = |a: &[f64], b: &[f64]| a.iter().zip(b).all(|(x, y)| x.to_bits() == y.to_bits());
+    let mut cands: Vec<Vec<f64>> = vec![model.to_vec()];
+    if let Some(p) = offered {
+        for j in 1..p.len() {
+            let mut c = model.to_vec();
+            c[..j].copy_from_slice(&p[..j]);
+            if !same(&c, model) {
+                cands.push(c);
+            }
+        }
+    }
+    let mut found = None;
+    for (ci, c) in cands.iter().enumerate() {
+        if let Ok(t) = guard(|| construct(kind, c)) {
+            if obs_eq(&observe(kind, model, &t), &after) {
+                found = Some((ci, t));
+                break;
+            }
+        }
+    }
+    rep.check("C18.rejected.unchanged", regime, found.is_some(), || {
+        json!({"distribution": kind.name(), "history": hist, "parameters_last_accepted": jf(model),
+               "observed": "after the call panicked the object is neither the twin of the last accepted parameters nor that of a constructor-accepted prefix of the offered vector",
+               "mean_after": jval(&after.mean), "var_after": jval(&after.var), "density_after_at": after.at.first(), "density_after": after.density.first().map(jval)})
+    });
+    if let Some((ci, twin)) = found {
+        if ci > 0 {
+            rep.note_add("rejected_update.valid_prefix_applied", 1.0);
+        }
+        let cx = Ctx { kind, history: hist, n_draws };
+        compare(rep, &cx, regime, model, o2, &twin, seed);
+    }
+}
+
+fn nonfinite_case(cfg: &Cfg, rep: &mut Report, rng: &mut Rng, kind: Kind) {
+    let name = kind.name();
+    let np = kind.nparams();
+    let model = initial(rng, kind);
+    let start = format!("new({:?})", model);
+    let obj = match guard(|| construct(kind, &model)) {
+        Ok(o) => o,
+        Err(msg) => {
+            rep.check("C18.ctor.accepts_valid", &format!("{}:ctor", name), false, || json!({"distribution": name, "parameters": jf(&model), "panic": msg}));
+            return;
+        }
+    };
+    let n_draws = if cfg.miri() { 8 } else { 32 };
+    let values = nonfinite_values(cfg, rng);
+    rep.distinct(Hasher::new().s("nonfinite").s(name).fs(&model).fs(&values).finish(), true);
+    let accepted = |rep: &mut Report, param: &str, vk: &str, route: &str| rep.note_add(&format!("nonfinite.ACCEPTED.{}.{}={}.via-{}", name, param, vk, route), 1.0);
+    for i in 0..np {
+        let param = &kind.setters()[i][4..];
+        for &v in &values {
+            let vk = value_kind(v);
+            let mut p = model.clone();
+            p[i] = v;
+            // the constructor is offered every vector that a setter or an update is offered
+            let ctor_rejects = |q: &[f64]| guard(|| construct(kind, q)).is_err();
+            if !kind.integer(i) {
+                // ---- constructor (integer-typed parameters cannot be offered a non-finite value there)
+                let regime = format!("{}:nonfinite:ctor", name);
+                rep.case(&regime);
+                rep.seen(&format!("cover:nonfinite:{}:{}:{}:ctor", name, param, vk), 1);
+                let rejected = ctor_rejects(&p);
+                if rejected {
+                    rep.note_add("nonfinite.rejected(total)", 1.0);
+                } else {
+                    accepted(rep, param, vk, "ctor");
+                }
+                // ---- setter
+                let regime = format!("{}:nonfinite:setter", name);
+                rep.case(&regime);
+                rep.seen(&format!("cover:nonfinite:{}:{}:{}:setter", name, param, vk), 1);
+                let hist = vec![start.clone(), format!("{}({}) [non-finite]", kind.setters()[i], show(v))];
+                let mut o2 = obj;
+                match guard(|| o2.set(i, v)) {
+                    Err(_) => {
+                        rep.note_add("nonfinite.rejected(total)", 1.0);
+                        rep.check("C18.nonfinite.routes_agree", &regime, true, || json!(null));
+                        after_rejection(rep, kind, &regime, &hist, &model, None, &o2, n_draws, rng.u64() | 1);
+                    }
+                    Ok(()) => {
+                        accepted(rep, param, vk, "setter");
+                        rep.check("C18.nonfinite.routes_agree", &regime, !rejected, || {
+                            json!({"distribution": name, "history": hist, "parameter": param, "value": vk, "constructor": "panics on these parameters", "setter": "accepts the value",
+                                   "expected": "rejected in constructors, setters and bulk updates alike"})
+                        });
+                    }
+                }
+            }
+            // ---- bulk update: the value in position i next to the current values, next to new valid
+            // values, and next to another non-finite value
+            let mut vectors = vec![p.clone()];
+            if np == 2 && !cfg.miri() {
+                let mut q = p.clone();
+                q[1 - i] = valid_target(rng, kind, 1 - i, &model).0;
+                vectors.push(q);
+                let mut q = p.clone();
+                q[1 - i] = *rng.choose(&values);
+                vectors.push(q);
+            }
+            for q in vectors {
+                let regime = format!("{}:nonfinite:update", name);
+                rep.case(&regime);
+                rep.seen(&format!("cover:nonfinite:{}:{}:{}:update", name, param, vk), 1);
+                rep.seen(&format!("cover:nonfinite:update-position-{}", i), 1);
+                let hist = vec![start.clone(), format!("update([{}]) [non-finite]", q.iter().map(|x| show(*x)).collect::<Vec<_>>().join(", "))];
+                let rejected_by_ctor = ctor_rejects(&q);
+                let mut o2 = obj;
+                match guard(|| o2.update(&q)) {
+                    Err(_) => {
+                        rep.note_add("nonfinite.rejected(total)", 1.0);
+                        rep.check("C18.nonfinite.routes_agree", &regime, true, || json!(null));
+                        after_rejection(rep, kind, &regime, &hist, &model, Some(&q), &o2, n_draws, rng.u64() | 1);
+                    }
+                    Ok(()) => {
+                        accepted(rep, param, vk, "update");
+                        rep.check("C18.nonfinite.routes_agree", &regime, !rejected_by_ctor, || {
+                            json!({"distribution": name, "history": hist, "parameter": param, "value": vk, "constructor": "panics on this vector", "update": "accepts the vector",
+                                   "expected": "rejected in constructors, setters and bulk updates alike"})
+                        });
+                    }
+                }
+            }
+        }
+    }
+}
+
+fn nonfinite_family(cfg: &Cfg, rep: &mut Report) {
+    let n = cfg.pick(13 * 6, 13 * 40, 2);
+    par_cases(cfg, rep, 6, n, |i, rng, rep| {
+        nonfinite_case(cfg, rep, rng, KINDS[i % 13]);
+    });
+    if !cfg.lite {
+        for k in KINDS {
+            rep.require(&format!("{}:nonfinite:update", k.name()), 1);
+            for i in 0..k.nparams() {
+                let param = &k.setters()[i][4..];
+                for vk in ["NaN", "+inf", "-inf"] {
+                    rep.require(&format!("cover:nonfinite:{}:{}:{}:update", k.name(), param, vk), 1);
+                    if !k.integer(i) {
+                        rep.require(&format!("cover:nonfinite:{}:{}:{}:ctor", k.name(), param, vk), 1);
+                        rep.require(&format!("cover:nonfinite:{}:{}:{}:setter", k.name(), param, vk), 1);
+                    }
+                }
+            }
+            if (0..k.nparams()).any(|i| !k.integer(i)) {
+                rep.require(&format!("{}:nonfinite:ctor", k.name()), 1);
+                rep.require(&format!("{}:nonfinite:setter", k.name()), 1);
+            }
+        }
+        rep.require("cover:nonfinite:update-position-0", 1);
+        rep.require("cover:nonfinite:update-position-1", 1);
+    }
+}
+
+// ---------------------------------------------------------------------------------------------
 // isolation: other live objects, other threads
 
 fn isolation_objects(cfg: &Cfg, rep: &mut Report, rng: &mut Rng, kind: Kind) {
@@ -1496,8 +1702,8 @@ fn bulk_family(cfg: &Cfg, rep: &mut Report) {
 }
 
 pub fn run(cfg: &Cfg, rep: &mut Report) {
-    rep.rule = "random histories: constructor + 1..20 mutations (65% single setter, 35% update; 30% of the steps carry an invalid value; valid targets on a random side of the current value; two-sided bounds: targets above / below / containing / overlapping the old interval), 13 distributions round-robin. Structured valid targets: 35% of the valid setter steps take the current value of the same parameter (same), the current value of the other parameter (cross) or an edge of the documented domain (tiny: 5e-324, MIN_POSITIVE, EPSILON/2, log-uniform 1e-300..1e-15 and 1e-15..moderate range; huge: log-uniform moderate range..1e15 and 1e15..1e300, f64::MAX; probabilities up to 1-2^-53; integer parameters up to 1e18, DiscreteUniform bounds up to +-1e15); 50% of the valid updates are structured vectors labelled by class: same / equal (both targets bit-equal: a new value or a current one) / swap / cross (a target equals the current value of the other parameter) / one-changes / extreme; 20% of the histories start from equal parameters or from an edge of the domain. After every accepted step the object is compared with a fresh twin through every method of the distribution traits (pdf/pmf at 16 probe points; ln_pdf of the 9 continuous laws and Normal::cdf at those and 10 far-tail points; mean; var; 64 seeded sample() draws, 16 while a parameter is outside the moderate range; sample_n(12) and sample_matrix(2x6 / 6x2) from the same seed); then isolation cases (k = 0, 1, 50 other live objects; 8 concurrent threads). non-trivial = at least one accepted mutation changed a parameter; distinct by (distribution, sequence of calls and values). Default-start histories (20 per distribution quick, 200 thorough): Default::default() compared with new(default parameters), once more after a rejected setter/update, then mutated as above. Bulk family: per distribution, stream lengths 1, 2, 3, 100, 1000, 7e4, 1e5, 2^k-1 / 2^k / 2^k+1 for k in {4,8,10,12,14..17 (thorough ..20)} and 8 random lengths; random moderate parameters and seed per point; singles / sample_n twice / sample_matrix(r,c) twice with r*c = n, each followed by 4 single draws".into();
-    rep.assume("NaN is not used as an invalid probe: constructors and setters agree in accepting it");
+    rep.rule = "random histories: constructor + 1..20 mutations (65% single setter, 35% update; 30% of the steps carry an invalid value; valid targets on a random side of the current value; two-sided bounds: targets above / below / containing / overlapping the old interval), 13 distributions round-robin. Structured valid targets: 35% of the valid setter steps take the current value of the same parameter (same), the current value of the other parameter (cross) or an edge of the documented domain (tiny: 5e-324, MIN_POSITIVE, EPSILON/2, log-uniform 1e-300..1e-15 and 1e-15..moderate range; huge: log-uniform moderate range..1e15 and 1e15..1e300, f64::MAX; probabilities up to 1-2^-53; integer parameters up to 1e18, DiscreteUniform bounds up to +-1e15); 50% of the valid updates are structured vectors labelled by class: same / equal (both targets bit-equal: a new value or a current one) / swap / cross (a target equals the current value of the other parameter) / one-changes / extreme; 20% of the histories start from equal parameters or from an edge of the domain. After every accepted step the object is compared with a fresh twin through every method of the distribution traits (pdf/pmf at 16 probe points; ln_pdf of the 9 continuous laws and Normal::cdf at those and 10 far-tail points; mean; var; 64 seeded sample() draws, 16 while a parameter is outside the moderate range; sample_n(12) and sample_matrix(2x6 / 6x2) from the same seed); non-finite family (6 (40) cases per distribution): from random valid parameters, NaN x3 / +inf / -inf offered to each parameter via constructor, setter, and update (next to the current values, to new valid values, to another non-finite value), the object observed after every call that panicked; then isolation cases (k = 0, 1, 50 other live objects; 8 concurrent threads). non-trivial = at least one accepted mutation changed a parameter; distinct by (distribution, sequence of calls and values). Default-start histories (20 per distribution quick, 200 thorough): Default::default() compared with new(default parameters), once more after a rejected setter/update, then mutated as above. Bulk family: per distribution, stream lengths 1, 2, 3, 100, 1000, 7e4, 1e5, 2^k-1 / 2^k / 2^k+1 for k in {4,8,10,12,14..17 (thorough ..20)} and 8 random lengths; random moderate parameters and seed per point; singles / sample_n twice / sample_matrix(r,c) twice with r*c = n, each followed by 4 single draws".into();
+    rep.assume("random histories do not use NaN as an invalid probe. The non-finite family offers NaN (both signs, quiet and signalling patterns, random payloads), +inf and -inf to every parameter through the constructor, the setter and every position of the update vector (integer-typed parameters: through update only, which casts). Acceptance is recorded (notes nonfinite.ACCEPTED.<distribution>.<parameter>=<value>.via-<route>), not judged: the statement does not say whether +inf is a valid scale. Judged: a value the constructor rejects is rejected by setter and update too (routes_agree), and after a call that panicked the object is observationally the twin of the last accepted parameters (or of a constructor-accepted prefix of the offered vector), every method and the seeded streams included. Objects that accepted a non-finite value are not observed (NaN-shape sampler loops, erf(NaN) recursion on the unchanged tree)");
     rep.assume("integer-typed parameters (Binomial n, ChiSquared dof, DiscreteUniform bounds) are mutated with integer values only; update() receives them as integer-valued f64 (its f64→integer cast cannot express other invalid values than the typed setter)");
     rep.assume("ordinary targets keep shape parameters >= 0.4 (T: dof >= 0.7); structured targets visit the whole documented domain. No verdict depends on what a sampler returns there (C03): object and twin run the same code from the same seed under an iteration budget of 1e5 per stream, and a stream cut by the budget on BOTH sides is equal behaviour");
     rep.assume("validity table = the constructors' documented domains restricted to finite values (x > 0, sigma >= 0, 0 <= p <= 1, dof >= 1, lower <= upper); +-inf and NaN are not presented as valid parameters; integer parameters stay <= 1e18 (DiscreteUniform bounds within +-1e15) where update()'s f64 -> integer cast is exact and upper - lower + 1 cannot overflow");
@@ -1517,6 +1723,7 @@ pub fn run(cfg: &Cfg, rep: &mut Report) {
         history(cfg, rep, rng, KINDS[i % 13], true);
     });
     bulk_family(cfg, rep);
+    nonfinite_family(cfg, rep);
     let n_iso = cfg.pick(13 * 4, 13 * 40, 3);
     par_cases(cfg, rep, 2, n_iso, |i, rng, rep| {
         isolation_objects(cfg, rep, rng, KINDS[(i * 5) % 13]);
